@@ -130,7 +130,51 @@ def h_fock_norm(env, gate, d, cutoff, modes, sim):
         env.equal("Hermitian", new, cm.dagger(env, new))
 
 
-HARNESSES = {"uncertainty_1mode": h_uncertainty_1mode, "purity_of_pure": h_purity_of_pure, "fock_norm": h_fock_norm}
+def h_fock_attenuator(env, d, cutoff, mode):
+    """Attenuator on the mixed-state Fock simulator: for ANY Hermitian density matrix and loss angle the result is Hermitian,
+    has the same trace on the retained sectors' total (loss only moves weight down) and equals the Kraus sum
+    sum_k K_k rho K_k^+ with K_k = sum_n sqrt(C(n,k)) cos^(n-k) sin^k |n-k><n| on the lossy mode."""
+    import math as _m
+    from piquasso._simulators.fock.general.state import FockState
+    conn = cm.connector(env)
+    cfg = cm.config(env, cutoff=cutoff, validate=False)
+    b = fc.basis(d, cutoff)
+    N = len(b)
+    rho = env.herm_mat("r", N)
+    theta = env.param("theta")
+    st = FockState(d=d, connector=conn, config=cfg)
+    st._density_matrix = rho.copy() if env.mode == "sym" else numpy.array(rho, dtype=complex)
+    inst = pq.Attenuator(theta=theta).on_modes(mode)
+    env.functions.append(core.fn_ref(fsteps.attenuator))
+    if env.mode == "sym":
+        env.assume("cos(theta) != 0", xa.SymBool(xa.SC.lift(env.np.cos(theta)).abs2().re >= xa.RV(1) / 64))
+    else:
+        env.num_assumptions.append(("cos(theta) != 0", abs(numpy.cos(theta)) ** 2 >= 1 / 64))
+    gstate_mod = importlib.import_module("piquasso._simulators.fock.general.state")
+    with cm.patched_np(env, fsteps, gstate_mod):
+        new = fsteps.attenuator(st, inst, None)[0].state._density_matrix
+    env.equal("Hermitian", new, cm.dagger(env, new))
+    env.equal("trace preserved", env.np.trace(new), env.np.trace(rho))
+    # Kraus oracle
+    c, s_ = env.np.cos(theta), env.np.sin(theta)
+    index = {v: i for i, v in enumerate(b)}
+    want = None
+    for k in range(cutoff):
+        K = numpy.zeros((N, N), dtype=object) if env.mode == "sym" else numpy.zeros((N, N), dtype=complex)
+        for v in b:
+            n = v[mode]
+            if n >= k:
+                w = list(v)
+                w[mode] = n - k
+                K[index[tuple(w)], index[v]] = env.np.sqrt(_m.comb(n, k)) * c ** (n - k) * s_ ** k
+        if env.mode == "sym":
+            K = xa.xarr(K)
+        term = K @ rho @ K.T
+        want = term if want is None else want + term
+    env.equal("Kraus sum", new, want)
+
+
+HARNESSES = {"fock_attenuator": h_fock_attenuator, "uncertainty_1mode": h_uncertainty_1mode, "purity_of_pure": h_purity_of_pure, "fock_norm": h_fock_norm}
 
 
 def instances(tier):
@@ -148,6 +192,8 @@ def instances(tier):
             ("Beamsplitter5050", 2, 3, (0, 1)), ("Fourier", 1, 3, (0,))]
     if tier == "thorough":
         cfgs += [("Beamsplitter", 3, 3, (2, 0)), ("MachZehnder", 2, 3, (1, 0)), ("Beamsplitter", 2, 4, (0, 1)), ("Phaseshifter", 3, 3, (2,))]
+    for d, c, m in ((1, 3, 0), (2, 3, 1)) + (((1, 4, 0), (2, 3, 0)) if tier == "thorough" else ()):
+        out.append(("fock_attenuator", {"d": d, "cutoff": c, "mode": m}))
     for g, d, c, m in cfgs:
         out.append(("fock_norm", {"gate": g, "d": d, "cutoff": c, "modes": list(m), "sim": "pure"}))
         if c <= 3 and d <= 2:
